@@ -15,14 +15,16 @@ import (
 
 // c16OddStrings: argument values for string-typed options - empty, blank-only, separators only, unbalanced, non-UTF-8, long.
 var c16OddStrings = []string{"x", "", " ", "\t", "\n", " \r\n ", "  ", ",", ",,", " , ", "=", "dc=a", "dc=a,", ",dc=a", " dc=a ", "dc=a , dc=b", "\x00", "\xff", "\xff\xfe,",
-	"(cn=x)", "((", "))", "(", ")", "()", "(&)", "*", "\\", "\\,", "cn=\\", strings.Repeat("dc=long,", 2000), strings.Repeat(" ", 5000)}
+	"(cn=x)", "((", "))", "(", ")", "()", "(&)", "*", "\\", "\\,", "cn=\\", strings.Repeat("dc=long,", 2000), strings.Repeat(" ", 5000),
+	// things that look like OIDs, almost
+	".", "..", "1.", ".1", "1..2", "1.3.6.", ".1.3.6", "1.3.6.1.4.1.1466.20037.", "01.2", "1.02", "1.a", "1.3.6.1.4.1.1466.20037", "0", "-1.2"}
 
 func init() {
 	register(&Check{
 		ID: "C16", Level: "exploration", Primary: "calls", EvalCount: "calls",
 		Rule: "every call of an exported helper/constructor runs under recover(); a case is distinct by (function, argument-shape signature): " +
 			"ConvertString (tag,first length byte,#following bytes) / wrapper (tag,length class) / several wrapped arguments of different length classes in one call (every ordered pair over 13 lengths 0..70000, random 3..5-tuples); SID (revision,authority) pairs; NewEntry map shapes; " +
-			"constructor x ordered option list; 33 odd strings in every string-typed Mux registration option; the default result code of every response constructor called without WithResponseCode (checked on the wire); non-trivial = it reached the function body with that shape",
+			"constructor x ordered option list; 47 odd strings (blanks, separators, brackets, NUL, invalid UTF-8, almost-OIDs, very long ones) in every string-typed Mux registration option; the default result code of every response constructor called without WithResponseCode (checked on the wire); non-trivial = it reached the function body with that shape",
 		Assume: []string{"panics are observed through recover() in the calling goroutine; New*Response constructors are exercised inside a live handler (the only way to own a *Request)"},
 		Phases: func(tier string, seed int64) []Phase {
 			return []Phase{{Name: "helpers", Run: c16Helpers}, {Name: "constructors", Run: c16Constructors}}
@@ -632,6 +634,10 @@ func c16Constructors(c *Ctx) {
 	}
 	respOpts := []optSpec{
 		{"code", func() gldap.Option { return gldap.WithResponseCode(r.Intn(100)) }},
+		// codes nobody would choose - an int is an int
+		{"code-odd", func() gldap.Option {
+			return gldap.WithResponseCode(pick(r, []int{-1, -2, -128, -32768, -2147483648, 123, 124, 255, 256, 32767, 32768, 65536, 2147483647}))
+		}},
 		{"app", func() gldap.Option { return gldap.WithApplicationCode(r.Intn(31)) }},
 		{"diag", func() gldap.Option { return gldap.WithDiagnosticMessage(string(r.Bytes(r.Intn(4)))) }},
 		{"matched", func() gldap.Option { return gldap.WithMatchedDN(string(r.Bytes(r.Intn(4)))) }},
